@@ -113,7 +113,7 @@ def raw_sequence(seed, index, acc, count=True):
     for _ in range(nops):
         side = rng.randrange(2)
         k = rng.choice(("user", "user", "user", "event", "event", "event", "dup", "stale", "batch", "latest", "link", "finish",
-                        "discard", "split", "commit", "merge", "clear", "reset"))
+                        "discard", "split", "commit", "merge", "clear"))
         kinds.append(k)
         try:
             if k == "user":
@@ -199,12 +199,6 @@ def raw_sequence(seed, index, acc, count=True):
                             t[side] = d[side]
                             if rng.random() < 0.5:
                                 d.ignore(IgnoreReason.DISCARDED)
-            elif k == "reset":
-                # a side's change flag is reset on its own, as SyncManager.finished(side, ent) does, on any entry
-                ents = list(st.get_all())
-                if ents:
-                    with st.lock:
-                        rng.choice(ents)[side].changed = 0
             elif k == "clear":
                 # an entry's side forgotten and finished, as after a deletion has been synchronised
                 ents = [e for e in st.get_all() if e[side].oid]
